@@ -166,6 +166,17 @@ func multiMembers() []multiMember {
 			orders: [][]string{{"a.json"}, {"a.json", "b.json"}, {"b.json", "a.json"}},
 			outOf:  map[string]string{"a.json": "out.go", "b.json": "out.go"}, pkgOf: map[string]string{"out.go": "example.com/pkg/model"}})
 	}
+	// a whole-file reference to a document that has NO root (definitions only): there is nothing to generate for it — the run must
+	// end with an error (expectErr), never with a panic
+	{
+		d := objSpec(&fam.Prop{Label: "dv", Spec: &fam.Spec{Kind: "string"}, Required: true})
+		d.Ref, d.RefFile = "$defs", "b.json"
+		fa := &fam.FileSpec{Name: "a.json", ID: "https://example.com/a", Root: objSpec(&fam.Prop{Label: "viaDef", Spec: d}, &fam.Prop{Label: "whole", Spec: &fam.Spec{RefRootOf: "b.json", Kind: "object"}})}
+		fb := &fam.FileSpec{Name: "b.json", ID: "https://example.com/b", Root: objSpec(), NoRoot: true}
+		out = append(out, multiMember{name: "whole-file reference to a document without a root", cfg: base, files: []*fam.FileSpec{fa, fb}, expectErr: true,
+			orders: [][]string{{"a.json"}},
+			outOf:  map[string]string{"a.json": "out.go"}, pkgOf: map[string]string{"out.go": "example.com/pkg/model"}})
+	}
 	// a cycle across two files
 	t := objSpec(&fam.Prop{Label: "v", Spec: &fam.Spec{Kind: "string"}, Required: true})
 	t.Ref, t.RefFile = "$defs", "b.json"
